@@ -28,7 +28,27 @@ COMPONENTS = {"real": REAL, "simulated_or_stubbed": SIMULATED}
 LEVELS = {"C20": "exploration", "C13": "exploration", "C12": "exploration", "C15": "exploration", "C17": "exploration",
           "C14": "exploration", "C18": "exploration", "C01": "fault_enumeration", "C07": "exploration"}
 
+MUSIG_RULE = ("one run = one seeded Plan: signer count, key multiset, tweaks, nonce API per signer, delays, faults attached to logical messages "
+              "(drop/dup/flip/set/zero/ff/trunc/ext/splice/misdeliver/byzantine cancel/equivocation), crashes; non-trivial = a fault fired and an oracle "
+              "comparison against the BIP-327/BIP-340 model (or the single-use model) happened after it; distinct = distinct Plan hash")
+
 CHECKS = {
+    "C12": {
+        "worlds": [{"name": "musig", "variants": {"quick": ["ship", "asan_nv"], "thorough": ["ship", "asan_nv", "alt"]},
+                    "runs": {"quick": 6000, "thorough": 300000}, "secondary_share": 0.1}],
+        "rule": MUSIG_RULE, "components": COMPONENTS,
+        "assumptions": ["reference model (sim/ref) is an independent BIP-327/BIP-340 implementation, self-tested against the BIP vectors at every check",
+                        "nonce generation itself is not recomputed by the model (checked through uniqueness and through signature validity)"],
+    },
+    "C13": {
+        "worlds": [{"name": "nonce_api", "variants": {"quick": ["ship", "asan_nv"], "thorough": ["ship", "asan_nv", "alt"]},
+                    "runs": {"quick": 40000, "thorough": 2000000}, "secondary_share": 0.1},
+                   {"name": "musig", "variants": {"quick": ["ship"], "thorough": ["ship", "asan_nv"]},
+                    "runs": {"quick": 3000, "thorough": 150000}, "secondary_share": 0.1}],
+        "rule": MUSIG_RULE + "; nonce_api: histories of 1..12 API calls with attached argument faults over a pool of secret-nonce slots against a single-use model",
+        "components": COMPONENTS,
+        "assumptions": ["copying or serialising a secret nonce (documented misuse) is out of scope", "callbacks return (no longjmp out of the illegal callback)"],
+    },
     "C20": {
         "worlds": [
             {"name": "ctx", "variants": {"quick": ["cov", "ship"], "thorough": ["cov", "ship", "alt", "asan"]},
